@@ -696,12 +696,20 @@ func c07BlobDescriptor(c *Ctx) {
 			}
 			mtFV := freeVarOfParam(builder, cl, func(t types.Type) bool { b, ok := t.Underlying().(*types.Basic); return ok && b.Kind() == types.String })
 			rdFV := freeVarOfParam(builder, cl, func(t types.Type) bool { return t.String() == "io.Reader" })
-			okGen := stored["MediaType"] == mtFV && strings.HasPrefix(stored["Digest"], "call:invoke:digest.Digester.Digest(") && strings.HasPrefix(stored["Size"], "call:io.Copy(") && strings.Contains(stored["Size"], rdFV)
+			// the digest: Digester().Digest() after copying into Digester().Hash(), or NewDigest(alg, h) after copying into h = alg.Hash()
+			okDigest := strings.HasPrefix(stored["Digest"], "call:invoke:digest.Digester.Digest(")
+			if strings.HasPrefix(stored["Digest"], "call:digest.NewDigest(param:") {
+				_, dargs := splitTopArgs(strings.TrimPrefix(stored["Digest"], "call:"))
+				if len(dargs) == 2 && dargs[1] == "call:(digest.Algorithm).Hash("+dargs[0]+")" && strings.HasPrefix(stored["Size"], "call:io.Copy("+dargs[1]+",") {
+					okDigest = true
+				}
+			}
+			okGen := stored["MediaType"] == mtFV && okDigest && strings.HasPrefix(stored["Size"], "call:io.Copy(") && strings.Contains(stored["Size"], rdFV)
 			c.Check(okGen, "blob-descriptor/generator-body", "the generated descriptor is {MediaType: the given content media type, Digest: digest of the bytes read with the requested algorithm, Size: number of bytes read}", w.FnPos(cl), fmt.Sprintf("fields: %v", stored))
 			// the digester comes from the algorithm argument
 			okAlg := false
 			for _, ci := range allCalls(cl) {
-				if call, ok := ci.(*ssa.Call); ok && calleeName(call) == "(digest.Algorithm).Digester" && strings.HasPrefix(desc(call.Call.Args[0]), "param:") {
+				if call, ok := ci.(*ssa.Call); ok && (calleeName(call) == "(digest.Algorithm).Digester" || calleeName(call) == "(digest.Algorithm).Hash") && strings.HasPrefix(desc(call.Call.Args[0]), "param:") {
 					okAlg = true
 				}
 			}
